@@ -469,9 +469,11 @@ def check_entry_cursor_ctor(ctx, lvl, cls, path, rule):
             seq.append(("check", lhs))
         if n.get("k") == "CompoundAssignOperator" and n.get("op") in ("+=", "-="):
             seq.append((n["op"], gen_text(n.get("lhs")), gen_text(n.get("rhs"))))
-    checks = [x for x in seq if x[0] == "check"]
+    # the macro has two `<=` conjuncts (`begin <= end` and `offset + size <= end - begin`): the size conjunct is
+    # the one whose left side mentions the block length
+    checks = [x for x in seq if x[0] == "check" and bl in x[1]]
     moves = [x for x in seq if x[0] in ("+=", "-=")]
-    if not checks or bl not in checks[0][1]:
+    if not checks:
         errs.append("no SBEPP_SIZE_CHECK over block_length bytes (found %s)" % checks)
     if len(moves) != 1 or moves[0][0] != "+=" or "pointer()" not in moves[0][1] or moves[0][2].strip("()") != bl:
         errs.append("cursor must be advanced by exactly `c.pointer() += block_length` (found %s)" % moves)
